@@ -110,11 +110,19 @@ class IoPlan:
                 if f["kind"] == "peer_call" and self.peer_call is not None:
                     # the peer is the library itself: another thread's parse_from_file(dump=True) into the same target runs
                     # from start to end while this operation is parked at its k-th os-level call
+                    # ... on a thread of its own (thread ids and thread-local state differ, as they would)
                     io_, HOOKS.io = HOOKS.io, None
+                    sys_, HOOKS.sys = HOOKS.sys, None
+                    box = []
                     try:
-                        changed = self.peer_call(f["target"])
+                        import threading
+                        th = threading.Thread(target=lambda: box.append(self.peer_call(f["target"])), name="peer")
+                        th.start()
+                        th.join()
+                        changed = box[0] if box else []
                     finally:
                         HOOKS.io = io_
+                        HOOKS.sys = sys_
                     self.fired.append({"site": "sys", "kind": "peer_call", "at": self.sys_n, "before_call": name, "changed": changed})
                     return
                 created = []
